@@ -324,12 +324,15 @@ def classify_exact(case):
 
 
 # --------------------------------------------------------------------------- integrands
-FAMILIES = ["exp", "sin", "lorentz", "gauss", "cubic"]
+FAMILIES = ["exp", "sin", "lorentz", "gauss", "cubic", "const"]
 
 
 def _family(name, k, ph, c, s):
     """f(x) evaluated with whatever float type x has (float64 for esutil, longdouble for the oracle)."""
     def f(x):
+        if name == "const":
+            # a constant integrand written the natural way: it returns a number, not an array
+            return float(ph) + 0.5 if x.dtype == np.float64 else x.dtype.type(float(ph) + 0.5) + 0 * x
         T = x.dtype.type
         u = (x - T(c)) / T(s)
         if name == "exp":
@@ -424,8 +427,8 @@ def classify_func(case):
 
 # --------------------------------------------------------------------------- sub-check: data
 @st.composite
-def tables(draw):
-    npt = draw(st.one_of(st.integers(2, 40), st.integers(2, 5)))
+def tables(draw, npt=None):
+    npt = npt or draw(st.one_of(st.integers(2, 40), st.integers(2, 5)))
     # abscissa scale: mostly moderate, one table in three tiny or huge ("tiny and huge widths")
     h = 10.0 ** draw(st.one_of(st.floats(-3, 3), st.floats(-3, 3), st.floats(-12, 12)))
     inc = draw(st.lists(st.floats(0.05, 1.0), min_size=npt - 1, max_size=npt - 1))
@@ -529,6 +532,7 @@ def history_cases(draw):
     # half of the histories alternate between two or three point counts only (A, B, A, B ...): an object that
     # remembers more than its current rule is exercised by coming *back* to a count it has seen
     alternating = draw(st.booleans()) and len(pool) >= 2
+    tabsize = draw(st.sampled_from([None, None, 5, 12]))       # tables of one length within a history (buffers reused)
     ops = []
     for _ in range(nops):
         if alternating:
@@ -539,7 +543,7 @@ def history_cases(draw):
             a, b = draw(intervals(max_logratio=1.95))
             ops.append({"kind": "func", "npts": npts, "a": a, "b": b, "f": draw(integrand(a, b))})
         else:
-            xs, ys = draw(tables())
+            xs, ys = draw(tables(npt=tabsize))
             ops.append({"kind": "data", "npts": npts, "x": xs, "y": ys})
     return {"n0": n0, "ops": ops}
 
@@ -548,11 +552,21 @@ def check_history(case, ctx):
     import esutil.integrate as ei
     qg = must(ei.QGauss, case["n0"]) if case["n0"] is not None else must(ei.QGauss)
     cur = case["n0"]
+    bufx = bufy = None
     for step, op in enumerate(case["ops"]):
         if op["kind"] == "func":
             args = ([op["a"], op["b"]], _make_f(op["f"]))
         else:
-            args = (np.array(op["x"]), np.array(op["y"]))
+            nx = np.array(op["x"], dtype="f8")
+            ny = np.array(op["y"], dtype="f8")
+            if bufx is not None and bufx.size == nx.size:
+                # the caller refills the arrays of the previous table (preallocated buffers): same objects,
+                # new contents
+                bufx[...] = nx
+                bufy[...] = ny
+            else:
+                bufx, bufy = nx, ny
+            args = (bufx, bufy)
         kw = {} if op["npts"] is None else {"npts": op["npts"]}
         if op["npts"] is None and cur is None:
             r = sut(qg.integrate, *args, **kw)
